@@ -1,0 +1,31 @@
+//go:build verif
+
+// Contracts (machine-checked by /verif/engine, see /verif/DESIGN.md). Comment-only file.
+package gate
+
+// ---- C36: JSON Merge Patch (RFC 7396) --------------------------------------------------------------
+// MergePatch(Target, Patch): if Patch is not an object -> Patch. Otherwise Target := {} unless it is an object; for each
+// member (Name, Value) of Patch: Value == null -> remove Name from Target, else Target[Name] := MergePatch(Target[Name], Value).
+//@ func applyMergePatch
+//@   props C36
+//@   at-call delete as del: assert [null-removes] isnil(value) && arg0 == targetObject && streq(arg1, key) && has(patchObject, key)
+//@   at-call applyMergePatch as rec: assert [members-merge-recursively] !isnil(value) && arg1 == value && arg0 == targetObject[key]
+//@   at-call applyMergePatch: assert [member-of-patch] has(patchObject, key) && value == patchObject[key]
+//@   at-call mapupdate as upd: assert [member-set-to-merged] called(rec) && arg0 == targetObject && streq(arg1, key) && arg2 == res(rec)
+//@   ensures [non-object-replaces] !dyntype(patch, "map[string]any") ==> result == patch
+//@   ensures [object-merges-into-target] dyntype(patch, "map[string]any") && dyntype(target, "map[string]any") ==> ref(result) == ref(target) && dyntype(result, "map[string]any")
+//@   ensures [non-object-target-starts-empty] dyntype(patch, "map[string]any") && !dyntype(target, "map[string]any") ==> dyntype(result, "map[string]any") && ref(result) != ref(patch) && fresh(result)
+
+// The patched document is accepted only if it decodes strictly as a configuration; JSON errors in the patch are reported.
+//@ func mergeConfigPatch
+//@   props C36
+//@   at-call canonicalConfigJSON as canon: assert arg0 == current && current != nil
+//@   at-call Unmarshal#1 as u1: assert arg0 == res(canon, 0) && res(canon, 1) == nil
+//@   at-call Unmarshal#2 as u2: assert called(u1) && res(u1) == nil && streq(bytes(arg0), patch)
+//@   at-call applyMergePatch as apply: assert called(u2) && res(u2) == nil && arg0 == target && arg1 == patchValue
+//@   at-call Marshal as enc: assert called(apply) && arg0 == res(apply)
+//@   at-call decodeConfigStrict as dec: assert called(enc) && res(enc, 1) == nil && arg0 == res(enc, 0) && ref(arg2) == &candidate
+//@   ensures [nil-current-rejected] current == nil ==> result.1 != nil && result.0 == nil
+//@   ensures [bad-patch-json-rejected] called(u2) && res(u2) != nil ==> result.1 != nil && result.0 == nil
+//@   ensures [strict-decode-gate] result.1 == nil ==> called(dec) && res(dec) == nil && result.0 == &candidate
+//@   ensures [error-or-config] (result.1 == nil) != (result.0 == nil)
